@@ -112,6 +112,12 @@ func genWorkload(seed int64, nblocks int) []block {
 		if b < 4 {
 			n = 6
 		}
+		if b == 0 {
+			n = 0 // block 0 holds the scripted start only: its four gauges must be alone in their reference list
+			if bl.DtSec > 10 {
+				bl.DtSec = 5 // and the block must not end an epoch by itself
+			}
+		}
 		if b == 1 {
 			// a ladder of 14 distinct lock durations on one denom right at the start: its accumulation
 			// sum-tree (fan-out 10) has several nodes at every later export/import point
@@ -521,6 +527,15 @@ func (n *node) stats() map[string]int {
 				st["lockGaugesThatPaid"]++
 			}
 		}
+	}
+	// stored order of the active gauge references (concatenated per start time): out of id order once a
+	// gauge left the middle of a list shared with others
+	prev := uint64(0)
+	for _, g := range n.App.IncentivesKeeper.GetActiveGauges(n.Ctx) {
+		if g.Id < prev {
+			st["maxActiveGaugeRefsOutOfIdOrder"] = 1
+		}
+		prev = g.Id
 	}
 	locks, _ := n.App.LockupKeeper.GetPeriodLocks(n.Ctx)
 	st["locks"] = len(locks)
